@@ -155,6 +155,55 @@ def main():
                    'have_names': have_names}, open(outp, 'w'))
         return
 
+    if mode == 'objects':
+        # behaviours of spec/VFormObjects.tla on ONE real VForm object: 'req' = compile_vform(obj), 'add' = obj.add(term)
+        from pyiga import vform as vf
+
+        def build(nterms, base):
+            V = vf.VForm(2)
+            u, v = V.basisfuns()
+            if base == 'mass':
+                V.add(u * v * vf.dx)
+            else:
+                V.add(2 * u * v * vf.dx)
+            for k in range(1, nterms):
+                V.add((k + 1) * vf.Dx(u, 0) * v * vf.dx)
+            return V, u, v
+        results = []
+        cache = [v for k, v in vars(C).items() if k.endswith('vform_asm_cache') and isinstance(v, dict)]
+        initial = dict(cache[0]) if len(cache) == 1 else None
+        for job in req['behaviours']:
+            if initial is not None:
+                cache[0].clear()
+                cache[0].update(initial)
+            base, beh = job['base'], job['beh']
+            V, u, v = build(1, base)
+            nreal = 1
+            out = []
+            for step in beh:
+                if step['a'] == 'add':
+                    try:
+                        V.add((nreal + 1) * vf.Dx(u, 0) * v * vf.dx)
+                        nreal += 1
+                        out.append({'a': 'add', 'ok': True})
+                    except Exception as ex:
+                        out.append({'a': 'add', 'ok': False, 'err': type(ex).__name__})
+                else:
+                    want = canon(C.generate(build(nreal, base)[0]))
+                    try:
+                        asm = C.compile_vform(V)
+                        ship = [n for n, c in shipped_classes.items() if asm is c]
+                        if ship:
+                            got = canon(C.generate(getattr(vform, [f for f, kw, c in forms.SHIPPED if ship[0].startswith(c)][0])(int(ship[0][-2]))))
+                        else:
+                            got = canon(getattr(asm, 'src', None))
+                        out.append({'a': 'req', 'right': got == want, 'nterms': nreal, 'shipped': bool(ship)})
+                    except Exception as ex:
+                        out.append({'a': 'req', 'right': False, 'err': type(ex).__name__ + ': ' + str(ex)[:100], 'nterms': nreal})
+            results.append(out)
+        json.dump({'results': results}, open(outp, 'w'))
+        return
+
     # replay: every sequence starts from the initial cache (shipped assemblers only).  The cache dict is reset
     # in place when it can be found; otherwise each sequence runs in a forked copy of this interpreter.
     def run_seq(seq):
